@@ -775,7 +775,14 @@ func (z *Decimal) FMA(x, y, u *Decimal) *Decimal {
 	}
 
 	if u.form == zero {
-		return z.Mul(x, y)
+		uneg := u.neg // u may be z
+		z.Mul(x, y)
+		if z.form == zero && z.acc == Exact && z.neg != uneg {
+			// exact zero product plus a zero of the opposite sign: the sum is
+			// +0, or -0 when rounding ToNegativeInf (IEEE 754-2008, section 6.3)
+			z.neg = z.mode == ToNegativeInf
+		}
+		return z
 	}
 	// 0 < |u| <= Inf
 
